@@ -76,27 +76,27 @@ theorem zip_getElem?_iff {keys : List Val} {errs : List Err}
 
 /-! ## Indexing into `colCs` / `tryCs` -/
 
-theorem colCs_length (E : Ext) : ∀ cs : List Conv, (colCs E cs).length = cs.length
+theorem colCs_length_T (E : Ext) : ∀ cs : List Conv, (colCs E cs).length = cs.length
   | [] => by simp [colCs]
-  | c :: cs => by simp [colCs, colCs_length E cs]
+  | c :: cs => by simp [colCs, colCs_length_T E cs]
 
-theorem colCs_getElem? (E : Ext) : ∀ (cs : List Conv) (i : Nat), (colCs E cs)[i]? = cs[i]?.map (colC E)
+theorem colCs_getElemT? (E : Ext) : ∀ (cs : List Conv) (i : Nat), (colCs E cs)[i]? = cs[i]?.map (colC E)
   | [], i => by simp [colCs]
   | c :: cs, 0 => by simp [colCs]
-  | c :: cs, i + 1 => by simp [colCs, colCs_getElem? E cs i]
+  | c :: cs, i + 1 => by simp [colCs, colCs_getElemT? E cs i]
 
-theorem tryCs_getElem? (E : Ext) : ∀ (cs : List Conv) (i : Nat), (tryCs E cs)[i]? = cs[i]?.map (tryC E)
+theorem tryCs_getElemT? (E : Ext) : ∀ (cs : List Conv) (i : Nat), (tryCs E cs)[i]? = cs[i]?.map (tryC E)
   | [], i => by simp [tryCs]
   | c :: cs, 0 => by simp [tryCs]
-  | c :: cs, i + 1 => by simp [tryCs, tryCs_getElem? E cs i]
+  | c :: cs, i + 1 => by simp [tryCs, tryCs_getElemT? E cs i]
 
-theorem applyAt_colCs {E : Ext} {cs : List Conv} {i : Nat} {c : Conv} (h : cs[i]? = some c) (v : Val) :
+theorem applyAt_colCs_T {E : Ext} {cs : List Conv} {i : Nat} {c : Conv} (h : cs[i]? = some c) (v : Val) :
     applyAt (colCs E cs) i v = colC E c v := by
-  simp [applyAt, colCs_getElem?, h]
+  simp [applyAt, colCs_getElemT?, h]
 
-theorem applyAt_tryCs {E : Ext} {cs : List Conv} {i : Nat} {c : Conv} (h : cs[i]? = some c) (v : Val) :
+theorem applyAt_tryCs_T {E : Ext} {cs : List Conv} {i : Nat} {c : Conv} (h : cs[i]? = some c) (v : Val) :
     applyAt (tryCs E cs) i v = tryC E c v := by
-  simp [applyAt, tryCs_getElem?, h]
+  simp [applyAt, tryCs_getElemT?, h]
 
 theorem zipWith_colCs (E : Ext) : ∀ (cs : List Conv) (xs : List Val),
     List.zipWith (fun f x => f x) (colCs E cs) xs = List.zipWith (colC E) cs xs
@@ -868,7 +868,7 @@ theorem zipWith_colC_getElem? {cs : List Conv} {xs : List Val} {i : Nat} {r : Ou
 theorem structReport_colCs {names : List String} {cs : List Conv} {k x : Val} {i : Nat} {c : Conv}
     (hk : structKnown names k = some i) (hc : cs[i]? = some c) :
     structReport names (colCs E cs) (k, x) = colC E c x := by
-  simp only [structReport, hk, applyAt_colCs hc]
+  simp only [structReport, hk, applyAt_colCs_T hc]
 
 theorem isSeq_of_isMap {v : Val} (h : v.isMap = true) : v.isSeq = false := by
   cases v <;> first | rfl | cases h
